@@ -348,4 +348,22 @@ class Statement(object):
                 jump_amount &= 0xFFFF
             self.code_pkg.additional = NumericValue(jump_amount, size_hint=self.pcr_size_hint)
 
+    def fit_operand_width(self):
+        """
+        The operand field of an instruction is as wide as the statement's size
+        says it is, less the op code and post byte, however the value was spelt
+        in the source. A value that does not fit that width is an error.
+        """
+        if self.instruction.is_pseudo or self.instruction.is_special:
+            return
+        if not self.code_pkg.additional.is_numeric():
+            return
+        digits = 2 * self.code_pkg.size - self.code_pkg.op_code.hex_len() - self.code_pkg.post_byte.hex_len()
+        try:
+            if digits not in (2, 4):
+                raise ValueTypeError("the statement has no room for an operand value")
+            self.code_pkg.additional = self.code_pkg.additional.fit(digits)
+        except ValueTypeError as error:
+            raise TranslationError(str(error), self)
+
 # E N D   O F   F I L E #######################################################
